@@ -129,6 +129,47 @@ def a_parent(c7):
     return rm.encode(rm.decode(c7)[:4])
 
 
+class InjectedAbort(BaseException):
+    """stands for KeyboardInterrupt / MemoryError / a timeout signal arriving in the middle of a call"""
+
+
+ABORT_EVENTS = ['lonlat_to_cell:f03t2edge', 'cell_to_boundary:f03t2edge', 'cell_to_lonlat:f03t2edge', 'cell_to_boundary:f07t5in', 'low:cell_to_boundary:seg1:r1:f00t1',
+                'low:cell_to_boundary:auto:r0:f11t6', 'compact:sib', 'uncompact', 'cell_to_children:world', 'get_res0_cells', 'cell_to_boundary:default_r7']
+
+
+def abort_explore(task):
+    """fault enumeration: abort the call `ev` at every line event inside a5 (first/last occurrences of each site in quick), then make the
+    probe calls single-threaded in the same process: an aborted call is part of the history and must leave nothing behind"""
+    from vf import sched
+    import a5
+    ev, probes, expected, cap, only = task
+    prefix = os.path.dirname(os.path.realpath(a5.__file__)) + os.sep
+    ex = sched.Explorer(prefix, 'line')
+    ex.abort_exc = InjectedAbort
+    ex.after = lambda: [history.run_event(p)[0] for p in probes]
+    if cap is not None:
+        ex.occ_total = ex.count_sites(lambda: history.run_event(ev))
+        ex.occ_cap = cap
+    import gc
+    gc.collect()
+    gc.freeze()
+    res = ex.explore(lambda: history.run_event(ev), lambda: None, only)
+    out = []
+    want = ('ok', sched.canon([expected[p[0]] for p in probes]))
+    for kk, site, va, vb in res:
+        if va in ('blocked', 'crash'):
+            out.append((kk, site, va))
+            continue
+        probe = vb[2] if isinstance(vb, tuple) and len(vb) == 3 and vb[0] == 'with-probe' else None
+        if probe is None or probe[0] != 'ok':
+            out.append((kk, site, 'probe calls raised: %s' % (probe[1] if probe else 'no probe result')))
+            continue
+        got = probe[1]
+        bad = [probes[i][0] for i in range(len(probes)) if i + 1 < len(got) and got[i + 1] != sched.canon(expected[probes[i][0]])]
+        out.append((kk, site, bad or None))
+    return ev[0], out, ex.skipped
+
+
 def fresh_value(ev):
     """the same single call in a genuinely fresh interpreter"""
     code = ('import sys,pickle,base64;sys.path.insert(0,%r);sys.path.insert(0,%r);'
@@ -297,6 +338,25 @@ def run(tier, t0):
     acc.strata['tie_clusters'] = len(cl_menus)
     acc.strata['tie_cluster_histories'] = len(cl_tasks)
     phase('clusters')
+    # ---- fault enumeration: every abort point of selected calls, then probe calls
+    ab_events = [by_name[n] for n in ABORT_EVENTS if n in by_name]
+    probes = ab_events[:8] + [by_name[n] for n in ('lonlat_to_cell:f03t1in', 'cell_to_boundary:f03t3in', 'cell_to_children') if n in by_name]
+    cap = (4, 2) if tier == 'quick' else None
+    ab_tasks = [(ev, probes, {p[0]: expected[p[0]] for p in probes}, cap, (3, i)) for ev in ab_events for i in range(3)]
+    for name, out, skipped in many(abort_explore, ab_tasks):
+        acc.n['abort_points_skipped_by_occurrence_cap'] += skipped
+        for kk, site, bad in out:
+            acc.n['transitions'] += 1
+            acc.n['abort_points'] += 1
+            if bad is None:
+                acc.n['validated'] += 1
+            elif bad in ('blocked',):
+                acc.n['blocked'] += 1
+            else:
+                what = f'later calls {bad} return values different from the pristine single calls' if isinstance(bad, list) else str(bad)
+                acc.violation(f'c17:abort:{name}@{site[0]}:{site[1]}:{site[2]}', f'{name} aborted (exception injected) at {site[0]}:{site[2]} ({site[1]}): {what}',
+                              {'history': ['<abort>' + name], 'event': name, 'abort': {'event': name, 'k': kk, 'site': list(site)}})
+    phase('abort_points')
     acc.n['states'] = len(seen)
     acc.n['nontrivial'] = len(seen)
     acc.n['menu_events'] = len(full)
@@ -305,7 +365,8 @@ def run(tier, t0):
     acc.sample({'pristine_state_hash': h0, 'distinct_states': len(seen)})
     rule = (f'event menu of {len(full)} public calls (12 faces x 10 triangles x inside/near-edge x lonlat_to_cell, cell_to_boundary, cell_to_lonlat + 18 other calls, mutate-the-result variants); '
             f'all histories of length 1 over the menu, length 2 over {len(menu2)} events, length 3 over {len(sub)} events (extended only from histories that reached a new library state), '
-            'and 4 saturation histories (whole menu in 4 orders, then every event again); a state is the canonical hash of everything reachable from the a5 module globals')
+            'and 4 saturation histories (whole menu in 4 orders, then every event again); tie clusters; fault enumeration: 11 calls aborted by an injected exception at every line event '
+            '(quick: first 4 / last 2 occurrences per site) followed by 16 probe calls; a state is the canonical hash of everything reachable from the a5 module globals')
     return common.finish(PID, LEVEL, tier, acc, t0, rule, [
         'the oracle value of an event is the value of the single call in a process forked from a pristine import; 16 of them per run are compared with genuinely fresh interpreters',
         'state identity = sha1 of a generic canonical walk over all a5 module globals and reachable instance dicts (dicts sorted, floats by hex); histories reaching a seen state are not extended',
@@ -321,6 +382,16 @@ def replay(case):
                 raise res
             out[i] = res
         return out
+    if 'abort' in case:
+        k = many(prepare, [None])[0]
+        full = build_menu(k)
+        by_name = {ev[0]: ev for ev in full}
+        _, lvl1, _ = many(history.expand, [([], full, None)])[0]
+        expected = {full[i][0]: res for i, res, prob, h in lvl1}
+        ab_events = [by_name[n] for n in ABORT_EVENTS if n in by_name]
+        probes = ab_events + [by_name[n] for n in ('lonlat_to_cell:f03t1in', 'cell_to_boundary:f03t3in', 'cell_to_lonlat:f00t0in', 'cell_to_children', 'compact:res0') if n in by_name]
+        name, out, _ = many(abort_explore, [(by_name[case['abort']['event']], probes, {p[0]: expected[p[0]] for p in probes}, None, None)])[0]
+        return [(f'c17:abort:{name}@{site[0]}:{site[2]}', str(bad)) for kk, site, bad in out if bad and kk == case['abort']['k']]
     if 'cluster' in case:
         evs = [(e[0], e[1], (tuple(e[2][0]), e[2][1]), e[3]) for e in case['cluster']]
         byn = {e[0]: e for e in evs}
